@@ -869,7 +869,10 @@ class DFA:
         if isinstance(chained_dfa.starting_state, DFProxyState):
             # Add an extra state that will represent the condition point properly (see docs for equivalent_on_values)
             valid, to_else = chained_dfa.starting_state.equivalent_on_values()
-            if valid or to_else:
+            # Plain proxy states can be joined directly through their Else transition; a condition point has no symbols at all
+            # on its transitions, so it always needs the extra state.
+            is_condition_point = isinstance(chained_dfa.starting_state, DFConditionPoint)
+            if (valid and to_else) or (is_condition_point and (valid or to_else)):
                 fake_start = DFState()
                 chained_dfa.add(fake_start)
 
@@ -879,6 +882,14 @@ class DFA:
                 if to_else:
                     fake_start[to_else] = chained_dfa.starting_state
                     fake_start[to_else].fallthrough(True).handles_else()
+                chained_dfa.starting_state = fake_start
+            elif is_condition_point:
+                # None of the branches look at the input, so everything falls through to the condition point
+                fake_start = DFState()
+                chained_dfa.add(fake_start)
+
+                fake_start[DFTransition.Else] = chained_dfa.starting_state
+                fake_initial_transition = fake_start[DFTransition.Else].fallthrough(True)
                 chained_dfa.starting_state = fake_start
 
         # If the caller wants to chain actions into a DFA which potentially matches the empty string, we have to place the actions onto 
